@@ -1001,6 +1001,9 @@ def parse_tree_to_objgraph(
 
                 # cleanup
                 for m in models:
+                    m._tx_reference_resolver.pos_crossref_list.sort(
+                        key=lambda x: x.ref_pos_start
+                    )
                     _end_model_construction(m)
 
                 # final check that everything went ok
@@ -1023,8 +1026,9 @@ def parse_tree_to_objgraph(
 
         if metamodel.textx_tools_support and type(model) not in PRIMITIVE_PYTHON_TYPES:
             # Cross-references for go-to definition language server support
-            # Already sorted based on ref_pos_start attr
-            # (required for binary search)
+            # Sorted based on ref_pos_start attr (required for binary search).
+            # References are collected as they get resolved which is not
+            # the textual order if some of them were postponed.
             model._pos_crossref_list = pos_crossref_list
 
             # Dict for storing rules where key is position of rule instance in
